@@ -366,7 +366,7 @@ def make_qfunc(ev, psi, branch, ret):
     return f
 
 
-def replay(ev, branches, Rnp, rng, viol, counts):
+def replay_on_device(ev, branches, Rnp, rng, viol, counts):
     n, nin = ev["n"], len(ev["ipos"])
     psi = np.array([complex(rng.gauss(0, 1), rng.gauss(0, 1)) for _ in range(1 << nin)])
     psi /= np.linalg.norm(psi)
@@ -425,6 +425,23 @@ def _factor_ok(v, tgt, ev):
 
 def _rp(ev):
     return {k: ev[k] for k in ("op", "rule", "emitted", "n", "cs", "prep", "ref", "ops", "aux")}
+
+
+def replay(path, tier="quick", seed=0):
+    """Re-decide one recorded violation: the recorded circuit goes through BranchEval again."""
+    import json
+    doc = json.loads(open(path).read())
+    rp = doc["replay"]
+    if isinstance(rp, str):
+        import ast
+        rp = ast.literal_eval(rp)
+    case = {"n": rp["n"], "cs": rp["cs"], "prep": rp["prep"], "ref": rp["ref"], "ops": rp["ops"], "aux": rp["aux"], "emit": 0}
+    br, _, r = run_branch_eval([case], "replay", 900)
+    bad = [b for b in br.get(0, []) if b["verdict"] != "ok"]
+    viol = [Violation(key=doc.get("key", "replay"), detail=f"branches {[b['o'] for b in bad][:8]}: {sorted({b['verdict'] for b in bad})}", replay=rp)] if bad else []
+    return CheckResult(coverage={"states": r.distinct, "transitions": r.generated, "traces_validated_against_impl": 0, "evaluations": len(br.get(0, [])),
+                                 "distinct_nontrivial": 0, "rule": "replay of one recorded rule circuit", "samples": [], "exhaustive": True},
+                       violations=viol, assumptions=["replay of a recorded circuit (the code is not re-run)"])
 
 
 # ------------------------------------------------------------------------------------------ the check
@@ -528,7 +545,7 @@ def run(tier, seed):
         if len(samples) < 4 and not bad and ev["key"] not in [s["key"] for s in samples]:
             samples.append({"key": ev["key"], "op": ev["op"], "rule": ev["rule"], "emitted": ev["emitted"][:14],
                             "branches": [{"outcomes": b["o"], "weight": round(weight(b) / C, 6), "verdict": b["verdict"]} for b in bs[:8]]})
-        replay(ev, bs, Rnp, rng, viol, counts)
+        replay_on_device(ev, bs, Rnp, rng, viol, counts)
     # ---- both encodings of the Pauli-product measurement agree branch by branch
     agree = 0
     for t, i in enumerate(gsel):
